@@ -102,6 +102,14 @@ pub fn plan(tier: &str, seed: u64) -> Vec<Batch> {
                 v.push(Batch { check: "C06".into(), phase: "race-matrix".into(), uni: uni.clone(), seed, lo: lo * RACE_W, hi: (lo + 4).min(nm) * RACE_W, fresh: false, tier: tier.into(), extra: Value::Null });
                 lo += 4;
             }
+            // the same matrix with the mount *removed* at every window (quick: every third case)
+            let nr = nm + race_capi_matrix().len() as u64;
+            let stride = if tier == "thorough" { 1 } else { 3 };
+            let mut k = (seed % stride) as u64;
+            while k < nr {
+                v.push(Batch { check: "C06".into(), phase: "race-remove".into(), uni: uni.clone(), seed, lo: k * RACE_W, hi: (k + 1) * RACE_W, fresh: false, tier: tier.into(), extra: Value::Null });
+                k += stride;
+            }
             for i in 0..race {
                 v.push(Batch { check: "C06".into(), phase: "race".into(), uni: uni.clone(), seed, lo: i * 4 * RACE_W, hi: (i + 1) * 4 * RACE_W, fresh: false, tier: tier.into(), extra: Value::Null });
             }
@@ -396,6 +404,9 @@ pub struct H {
     pub atk_mounts: Vec<u64>,
     pub atk_inodes: Vec<(u64, u64)>,
     pub base_mounts: Vec<u64>,
+    /// remove-race: identity of the object the attacker mounted (taken through the mount, which pins it);
+    /// mount ids are not used there - the id of a removed mount may be given to a mount the library makes
+    pub mounted_ident: Option<crate::world::Ino>,
     pub ctor_failed: bool,
     pub dsts: Vec<(String, bool)>,
     pub recs: Vec<(usize, String)>,
@@ -410,7 +421,7 @@ pub struct H {
 
 impl H {
     pub fn new() -> H {
-        H { atk_mounts: Vec::new(), atk_inodes: Vec::new(), base_mounts: mount_ids(), ctor_failed: false, dsts: Vec::new(), recs: Vec::new(), absolute: Vec::new(), fd_results: Vec::new(), ctor_faulted: false, faulted_case: false }
+        H { atk_mounts: Vec::new(), atk_inodes: Vec::new(), base_mounts: mount_ids(), ctor_failed: false, dsts: Vec::new(), recs: Vec::new(), absolute: Vec::new(), fd_results: Vec::new(), ctor_faulted: false, faulted_case: false, mounted_ident: None }
     }
     fn note_mounts(&mut self, muts: &[Mutation]) {
         for m in muts {
@@ -447,6 +458,16 @@ impl Hooks for H {
     fn begin_op(&mut self, _ctx: &mut RunCtx, _t: usize, _k: usize, spec: &OpSpec) {
         if let Op::Sup { muts } = &spec.op {
             self.note_mounts(muts);
+            if self.mounted_ident == Some((0, 0)) {
+                // remove-race: what sits on the target now is the attacker's object
+                self.mounted_ident = None;
+                if let Some(Mutation::MountOn { dst, .. }) = muts.first() {
+                    if let Ok(s) = sys::lstat(dst.as_bytes()) {
+                        self.mounted_ident = Some((s.st_dev, s.st_ino));
+                    }
+                }
+                self.atk_mounts.clear();
+            }
         }
     }
     fn end_op(&mut self, _ctx: &mut RunCtx, rec: &mut OpRecord) {
@@ -481,6 +502,9 @@ impl Hooks for H {
                 // absolute clauses: never an object of an attacker mount
                 if self.atk_mounts.contains(&f.mnt_id) {
                     self.absolute.push((rec.idx, "returned-over-mounted-object".into(), format!("{kind}({path:?}) returned {} which lives on mount {} placed by the attacker", f.path, f.mnt_id)));
+                }
+                if self.mounted_ident == Some(f.ino) {
+                    self.absolute.push((rec.idx, "returned-over-mounted-object".into(), format!("{kind}({path:?}) returned {} = inode {:?}, the object the attacker had mounted there (removed while the lookup was running)", f.path, f.ino)));
                 }
                 if kind == "open" && f.fstype != sys::PROC_SUPER_MAGIC {
                     self.absolute.push((rec.idx, "returned-non-procfs-object".into(), format!("{kind}({path:?}) returned {} (f_type {:#x})", f.path, f.fstype)));
@@ -566,6 +590,9 @@ fn run_pair(u: &mut Universe, case: &Case, st: &mut Stats, sample: bool) -> bool
     }
     let mut h = H::new();
     h.faulted_case = case.plan.seeded.is_some() || case.plan.script.iter().any(|d| d.fault.is_some());
+    if case.extra["remove_race"].as_bool() == Some(true) {
+        h.mounted_ident = Some((0, 0)); // filled in when the Sup operation has placed the mount
+    }
     let out = run_case(u, case, &mut h, false);
     // mounts placed by scripted decisions (race phase) are only known now: the absolute
     // clause "never an object of an attacker mount" is evaluated for them here
@@ -655,7 +682,7 @@ pub fn race_cases(u: &mut Universe, seed: u64, idx: u64, uni: &UniCfg, st: &mut 
     let (dst, nofollow, dir, ls) = rng.pick(&tg).clone();
     let (base, path) = *rng.pick(&ls);
     let src = sources(dir, &mut rng);
-    race_one(u, uni, st, &mut rng, dst, nofollow, &src, base, path, None, window)
+    race_one(u, uni, st, &mut rng, dst, nofollow, &src, base, path, None, window, false)
 }
 
 /// enumerated part of the racing phase: (target, source, handle kind, lookup) fixed, every window
@@ -706,7 +733,23 @@ pub fn race_capi_case(u: &mut Universe, idx: u64, uni: &UniCfg, st: &mut Stats) 
     let m = race_capi_matrix();
     let (dst, nofollow, src, base, path, flags) = m[idx as usize % m.len()];
     let mut rng = Rng::new(idx);
-    race_one(u, uni, st, &mut rng, dst, nofollow, src, base, path, Some((None, "global", flags, false)), window)
+    race_one(u, uni, st, &mut rng, dst, nofollow, src, base, path, Some((None, "global", flags, false)), window, false)
+}
+
+/// remove-race over the same matrix (and the C API's global handle): the mount exists when the lookup
+/// starts and is removed at one window
+pub fn race_remove_case(u: &mut Universe, idx: u64, uni: &UniCfg, st: &mut Stats) -> bool {
+    let (idx, window) = (idx / RACE_W, (idx % RACE_W) as usize);
+    let m = race_matrix();
+    let mut rng = Rng::new(idx);
+    if (idx as usize) < m.len() {
+        let (dst, nofollow, src, base, path, ctor, cname, flags, readlink) = m[idx as usize];
+        race_one(u, uni, st, &mut rng, dst, nofollow, src, base, path, Some((Some(ctor), cname, flags, readlink)), window, true)
+    } else {
+        let mc = race_capi_matrix();
+        let (dst, nofollow, src, base, path, flags) = mc[(idx as usize - m.len()) % mc.len()];
+        race_one(u, uni, st, &mut rng, dst, nofollow, src, base, path, Some((None, "global", flags, false)), window, true)
+    }
 }
 
 pub fn race_matrix_case(u: &mut Universe, idx: u64, uni: &UniCfg, st: &mut Stats) -> bool {
@@ -714,11 +757,11 @@ pub fn race_matrix_case(u: &mut Universe, idx: u64, uni: &UniCfg, st: &mut Stats
     let m = race_matrix();
     let (dst, nofollow, src, base, path, ctor, cname, flags, readlink) = m[idx as usize % m.len()];
     let mut rng = Rng::new(idx);
-    race_one(u, uni, st, &mut rng, dst, nofollow, src, base, path, Some((Some(ctor), cname, flags, readlink)), window)
+    race_one(u, uni, st, &mut rng, dst, nofollow, src, base, path, Some((Some(ctor), cname, flags, readlink)), window, false)
 }
 
 #[allow(clippy::too_many_arguments)]
-fn race_one(u: &mut Universe, uni: &UniCfg, st: &mut Stats, rng: &mut Rng, dst: &str, nofollow: bool, src: &str, base: Base, path: &str, fixed: Option<(Option<ProcCtor>, &'static str, i32, bool)>, window: usize) -> bool {
+fn race_one(u: &mut Universe, uni: &UniCfg, st: &mut Stats, rng: &mut Rng, dst: &str, nofollow: bool, src: &str, base: Base, path: &str, fixed: Option<(Option<ProcCtor>, &'static str, i32, bool)>, window: usize, remove: bool) -> bool {
     let src = src.to_string();
     // private handles must be unaffected; handles on the host's /proc (plain open, recursive
     // clone taken before the mount) may fail, but a success is never the over-mounted object
@@ -741,33 +784,47 @@ fn race_one(u: &mut Universe, uni: &UniCfg, st: &mut Stats, rng: &mut Rng, dst: 
         Some((_, _, flags, false)) => OpSpec::new(Op::ProcOpen { handle, base, path: path.into(), flags, follow: false }).facade(facade),
         None => lookup_op(rng, handle, base, path, facade, true),
     };
+    if remove {
+        // remove-race: the mount is there when the lookup starts and is taken away at one window
+        ops.push(OpSpec::new(Op::Sup { muts: vec![Mutation::MountOn { src: src.clone(), dst: dst.into(), nofollow }] }));
+    }
     ops.push(lk);
     let target_op = ops.len() - 1;
     let mk = |script: Vec<Dec>| {
-        let mut c = Case::new("C06", "race", uni.clone());
+        let mut c = Case::new("C06", if remove { "race-remove" } else { "race" }, uni.clone());
         c.world = Some(warm_world_with_outside());
         c.jobs = vec![ops.clone()];
         c.plan.script = script;
-        c.extra = json!({"ctor": cname, "ctor_before_mounts": true});
+        c.extra = json!({"ctor": cname, "ctor_before_mounts": true, "remove_race": remove});
         c
     };
     let base_case = mk(vec![]);
     let mut h0 = H::new();
     let out0 = run_case(u, &base_case, &mut h0, false);
+    if remove {
+        cleanup(&[(dst.to_string(), nofollow)]);
+        if mount_ids() != h0.base_mounts {
+            u.poisoned = true;
+            st.count("mounts.universe_abandoned", 1);
+        }
+    }
     if out0.harness_error.is_some() || u.poisoned {
         return !u.poisoned;
     }
     let wins: Vec<usize> = out0.trace.iter().filter(|e| e.lib && e.op == Some(target_op) && e.nr != crate::seam::HYPERCALL_NR).map(|e| e.step).collect();
-    if window == 0 {
+    if window == 0 && remove {
+        st.count("race.remove_windows_total", wins.len() as u64);
+    } else if window == 0 {
         st.count("race.windows_total", wins.len() as u64);
         st.count("race.windows_beyond_bound", wins.len().saturating_sub(RACE_W as usize) as u64);
     }
     for w in wins.into_iter().skip(window).take(1) {
-        let case = mk(vec![Dec { step: w, attack: vec![Mutation::MountOn { src: src.clone(), dst: dst.into(), nofollow }], ..Default::default() }]);
+        let atk = if remove { Mutation::Umount { path: if nofollow { format!("nofollow:{dst}") } else { dst.to_string() } } } else { Mutation::MountOn { src: src.clone(), dst: dst.into(), nofollow } };
+        let case = mk(vec![Dec { step: w, attack: vec![atk], ..Default::default() }]);
         if !run_pair(u, &case, st, false) {
             return false;
         }
-        st.count("race.windows_covered", 1);
+        st.count(if remove { "race.remove_windows_covered" } else { "race.windows_covered" }, 1);
         if u.poisoned {
             return false;
         }
@@ -821,6 +878,11 @@ pub fn run(u: &mut Universe, b: &Batch, st: &mut Stats) {
                     return;
                 }
             }
+            "race-remove" => {
+                if !race_remove_case(u, idx, &b.uni, st) {
+                    return;
+                }
+            }
             _ => {
                 let case = gen_case(b.seed, idx, &b.uni);
                 if !run_pair(u, &case, st, idx == b.lo) {
@@ -837,7 +899,7 @@ pub fn run(u: &mut Universe, b: &Batch, st: &mut Stats) {
 pub fn finalise(tier: &str, seed: u64, res: coord::CheckResult) -> i32 {
     let mut extra = Map::new();
     let c = &res.stats.counters;
-    extra.insert("race_enumeration".into(), json!({"windows_total": c.get("race.windows_total"), "windows_covered": c.get("race.windows_covered")}));
+    extra.insert("race_enumeration".into(), json!({"windows_total": c.get("race.windows_total"), "windows_covered": c.get("race.windows_covered"), "remove_windows_total": c.get("race.remove_windows_total"), "remove_windows_covered": c.get("race.remove_windows_covered")}));
     extra.insert("mount_targets".into(), json!(targets().iter().map(|t| t.0).collect::<Vec<_>>()));
     let _: Option<&RunOut> = None;
     coord::finalise(
@@ -845,7 +907,7 @@ pub fn finalise(tier: &str, seed: u64, res: coord::CheckResult) -> i32 {
         tier,
         seed,
         "exploration",
-        "one evaluation = one procfs lookup (open, open_follow, readlink; Rust handle or the C API's global handle) executed twice: on a clean /proc and with 1-3 mounts placed by the simulated attacker (fd-based move_mount exactly on the dentry, so symlinks and magic-links can be over-mounted) on files, directories, in-procfs symlinks, magic-links, /proc/self, /proc/thread-self and /proc itself - tmpfs, bind of a foreign file/directory, bind of another procfs file/directory, bind of a magic-link target, bind of a symlink as such (a foreign link that leads into another process's directory, procfs's own links); handle kinds: fsopen (subset and unmasked), open_tree non-recursive and recursive (taken before or after the mounts), plain open, global; universes K/E x new mount API {available, fsopen refused, all refused}; oracles: a successful result never lives on a mount the attacker placed nor is the mounted object; a handle backed by a private procfs gives exactly the result it gives without the mounts; any other handle gives that result or an error; race-capi: the same for the C API's global handle when it lives on the host's /proc (new mount API refused), with the flag sets C callers use for 'the link itself' (O_PATH|O_NOFOLLOW); race phase: for non-following lookups one mount is placed at every window of the lookup, on private handles (must be unaffected) and on handles that live on the host's /proc (plain open, recursive clone: may fail, a success is never the over-mounted object); non-trivial = at least one attacker mount took effect; distinct = hash of the case",
+        "one evaluation = one procfs lookup (open, open_follow, readlink; Rust handle or the C API's global handle) executed twice: on a clean /proc and with 1-3 mounts placed by the simulated attacker (fd-based move_mount exactly on the dentry, so symlinks and magic-links can be over-mounted) on files, directories, in-procfs symlinks, magic-links, /proc/self, /proc/thread-self and /proc itself - tmpfs, bind of a foreign file/directory, bind of another procfs file/directory, bind of a magic-link target, bind of a symlink as such (a foreign link that leads into another process's directory, procfs's own links); handle kinds: fsopen (subset and unmasked), open_tree non-recursive and recursive (taken before or after the mounts), plain open, global; universes K/E x new mount API {available, fsopen refused, all refused}; oracles: a successful result never lives on a mount the attacker placed nor is the mounted object; a handle backed by a private procfs gives exactly the result it gives without the mounts; any other handle gives that result or an error; race-capi: the same for the C API's global handle when it lives on the host's /proc (new mount API refused), with the flag sets C callers use for 'the link itself' (O_PATH|O_NOFOLLOW); race phase: for non-following lookups one mount is placed at every window of the lookup, on private handles (must be unaffected) and on handles that live on the host's /proc (plain open, recursive clone: may fail, a success is never the over-mounted object); race-remove: the mount is in place when the lookup starts and is removed at every window of it (same matrix, plus the C API's global handle) - a private handle gives its baseline result, any other handle the baseline result or an error, never the object that had been mounted (compared by inode through the mount, since the id of a removed mount can be reused); non-trivial = at least one attacker mount took effect; distinct = hash of the case",
         res,
         extra,
         vec!["requires statx mount ids (Linux 5.8+), as the statement does".into(), "the final-component race of open_follow on non-private handles is outside the statement and not asserted".into()],
